@@ -25,26 +25,36 @@ type jsonModule struct {
 	Deps []jsonModule `json:"deps"`
 }
 
-func depGraphCLI(run *hx.Run, rnd *hx.Rand, tmpRoot string) {
+// buildBuf builds the real `buf` binary of the repository under check once per run.
+func buildBuf(run *hx.Run, tmpRoot string) string {
 	repo := os.Getenv("VERIF_REPO")
 	if repo == "" {
 		repo = "/repo"
 	}
-	must0 := func(err error) {
-		if err != nil {
-			panic(err)
-		}
+	if err := os.MkdirAll(tmpRoot, 0o755); err != nil {
+		panic(err)
 	}
-	must0(os.MkdirAll(tmpRoot, 0o755))
 	bufBin := filepath.Join(tmpRoot, "buf-depgraph")
 	cmd := exec.Command("go", "build", "-o", bufBin, "./cmd/buf")
 	cmd.Dir = repo
 	cmd.Env = append(os.Environ(), "GOPROXY=off", "GOFLAGS=-mod=mod")
 	if out, err := cmd.CombinedOutput(); err != nil {
 		run.Fail(hx.OracleFailure{Class: "buf-binary-does-not-build", What: string(out), Replay: "go build ./cmd/buf"})
+		return ""
+	}
+	return bufBin
+}
+
+func depGraphCLI(run *hx.Run, rnd *hx.Rand, tmpRoot string, bufBin string) {
+	must0 := func(err error) {
+		if err != nil {
+			panic(err)
+		}
+	}
+	must0(os.MkdirAll(tmpRoot, 0o755))
+	if bufBin == "" {
 		return
 	}
-	defer os.Remove(bufBin)
 	n := run.N(25, 300)
 	rp := fmt.Sprintf("build/c10 --out /tmp/c10-replay --seed %d --tier %s", run.Seed, run.Tier)
 	dotEdge := regexp.MustCompile(`^\s*"([^"]+)" -> "([^"]+)"`)
